@@ -126,6 +126,13 @@ pub fn gen_case(rng: &mut Rng) -> Option<Value> {
     if input.is_empty() {
         return None;
     }
+    // "the library" must have one answer: skip inputs on which its optimised
+    // engine and its NFA simulation disagree (recorded under C01)
+    if let Ok(orc) = oracle::Oracle::build(&[pattern.clone()], &flags) {
+        if orc.engine_disagrees(&input) {
+            return None;
+        }
+    }
     let lines = split_lines(&input, term);
     let mut out_lines = vec![];
     for (i, l) in lines.iter().enumerate() {
